@@ -96,7 +96,7 @@ def lookup_task(N, d, B, m, tier):
             # public helper, with distances, squared and not
             qq = q if B > 0 else q.reshape(1, -1)
             idx2, dist2 = uu.get_closest_indices_from_points(qq, ins, return_distances=True, squared=True)
-            if d == 1:  # non-squared distances introduce sqrt variables: NRA stays cheap only for d = 1
+            if d == 1 and N <= 3:  # non-squared distances introduce sqrt variables: NRA stays cheap only for d = 1, N ≤ 3
                 idx1, dist1 = uu.get_closest_indices_from_points(qq, ins, return_distances=True, squared=False)
             else:
                 idx1, dist1 = idx2, None
